@@ -222,18 +222,23 @@ func (e *Env) prepare(c Case, scope string, sc *Script, cch cache.Cache) (evalua
 			return Result{OK: err == nil}
 		}, vHas, v, nil
 
-	case "jwt_cert", "jwt_nocert":
+	case "jwt_cert", "jwt_chain", "jwt_nocert":
 		notAfter := time.Now().Add(time.Hour)
 		if c.Off != NoOff {
 			notAfter = time.Now().Add(time.Duration(c.Off) * time.Second)
 		}
 
-		key, err := e.PKI.NewKey("kid1", c.Mech == "jwt_cert", notAfter)
+		key, err := e.PKI.NewKey("kid1", c.Mech != "jwt_nocert", notAfter)
 		if err != nil {
 			return nil, false, 0, err
 		}
 
-		if c.Mech == "jwt_cert" {
+		if c.Mech == "jwt_chain" {
+			// the published chain also names the CA certificate, which outlives the leaf by far
+			key.JWK.Certificates = append(key.JWK.Certificates, e.PKI.CA.Certificate)
+		}
+
+		if c.Mech != "jwt_nocert" {
 			vHas, v = true, Ms(key.JWK.Certificates[0].NotAfter)
 		} else {
 			vHas, v = false, 0
